@@ -397,6 +397,62 @@ class ResultFlow:
                     out.append((bb, name or "<temporary>", line))
         return out
 
+    def nested_discards(self):
+        """locals of type Result<Result<_, tracked error>, _> (the value of a joined task, of a channel, ...) whose Ok payload is
+        never read: `match joined { Ok(_) => Ok(()), Err(e) => .. }` drops the inner Result — the operation's real outcome"""
+        out = []
+        body = self.body
+        for l in range(body.arg_count + 1, len(body.locals)):
+            ty = body.local_ty(l)
+            if not is_result_ty(ty):
+                continue
+            inner = ty[ty.index("<") + 1:]
+            if not (is_result_ty(inner) and any(e in inner.split(">")[0] + inner for e in ("std::io::Error", "error::VfsError"))):
+                continue
+            # the inner type is the first type argument
+            depth, cut = 0, None
+            for i, c in enumerate(inner):
+                if c in "<([":
+                    depth += 1
+                elif c in ">)]":
+                    depth -= 1
+                elif c == "," and depth == 0:
+                    cut = i
+                    break
+            first = inner[:cut] if cut else inner
+            if not (is_result_ty(first) and tracked_err(first)):
+                continue
+            defs = [d for d in self.tr.defs.get(l, []) if not body.blocks[d[1]].cleanup]
+            if not defs:
+                continue
+            read = False
+
+            def touches_ok(place):
+                """the whole value, or something inside its Ok variant (not only the Err payload)"""
+                dc = [p["downcast"] for p in place.proj if isinstance(p, dict) and "downcast" in p]
+                return not dc or dc[0] in ("Ok", "Some", "Continue", "Ready")
+            for b in body.blocks:
+                if b.cleanup:
+                    continue
+                for st in b.stmts:
+                    if st.kind != "assign":
+                        continue
+                    for o in st.rv.ops:
+                        if o.kind in ("copy", "move") and o.place.local == l and touches_ok(o.place):
+                            read = True      # Ok payload read, or the whole value handed on
+                    if st.rv.place is not None and st.rv.place.local == l and st.rv.kind != "discr" and touches_ok(st.rv.place):
+                        read = True
+                t = b.term
+                if t.kind == "call":
+                    for a in t.args:
+                        if a.kind in ("copy", "move") and a.place.local == l:
+                            read = True
+            if not read:
+                kind, bb, idx = defs[0]
+                line = body.blocks[bb].stmts[idx].line if kind == "assign" else body.blocks[bb].term.line
+                out.append((bb, body.name_of_local(l) or "<temporary>", line))
+        return out
+
     def unused_results(self):
         """tracked Result values produced by a call and never read (only dropped)"""
         out = []
